@@ -10,7 +10,7 @@ var Plans = map[string][]PlanItem{
 	"C04": {{Scen: "world", Quick: 3000, Thorough: 150000}, {Scen: "aligned", Quick: 6, Thorough: 64}},
 	"C05": {{Scen: "nav", Quick: 12000, Thorough: 600000}},
 	"C06": {{Scen: "stored", Quick: 5000, Thorough: 300000}},
-	"C07": {{Scen: "docvalues", Quick: 3000, Thorough: 200000}, {Scen: "giant", Quick: 3, Thorough: 64}},
+	"C07": {{Scen: "docvalues", Quick: 3000, Thorough: 200000}, {Scen: "giant", Quick: 3, Thorough: 64}, {Scen: "world", Quick: 2500, Thorough: 150000}},
 	"C08": {{Scen: "dictionary", Quick: 8000, Thorough: 500000}},
 	"C18": {{Scen: "dmt", Quick: 8000, Thorough: 500000}, {Scen: "lifecycle", Quick: 800, Thorough: 60000}},
 	"C13": {{Scen: "reuse", Quick: 6000, Thorough: 400000}, {Scen: "docvalues", Quick: 1500, Thorough: 100000}},
